@@ -93,16 +93,18 @@ class Report:
         self.distinct.add((rule, construct))
         if rule in self.definite_rules:
             extra = dict(extra, definite=True)
-        if rule in self.follows:
+        if rule in self.follows and "follows" not in extra:
             extra = dict(extra, follows=True)  # travels with the finding when another report restates (absorbs) it
         self.findings.append(Finding(rule, module, qualname, construct, message, where, extra))
 
-    def check(self, cond: bool, rule: str, module: str, qualname: str, construct: str, message: str, where: str = "", detail: str = "", definite: bool = False) -> bool:
+    def check(self, cond: bool, rule: str, module: str, qualname: str, construct: str, message: str, where: str = "", detail: str = "", definite: bool = False, reads_shape: bool = False) -> bool:
         """definite: a failing instance names a construct that is positively wrong (not an expected construct that was not found), see sa/delegation.py."""
         if cond:
             self.ok(rule, construct, detail)
         elif definite:
             self.violation(rule, module, qualname, construct, message, where, definite=True)
+        elif reads_shape:
+            self.violation(rule, module, qualname, construct, message, where, follows=False)  # this instance reads the anchor's own statements, whatever the rule's default
         else:
             self.violation(rule, module, qualname, construct, message, where)
         return cond
@@ -178,10 +180,11 @@ class Report:
                 if f.extra.get("definite"):
                     kept.append(f)  # a positively wrong construct was identified: where other code moved to does not matter
                     continue
-                helpers = delegation.new_helpers(load_package(), f.module, f.qualname, touched if (f.rule in self.follows or f.extra.get("follows")) else set())
+                follows = bool(f.extra.get("follows", f.rule in self.follows))
+                helpers = delegation.shape_changes(load_package(), f.module, f.qualname, touched if follows else set(), only_helpers=follows)
                 if helpers:
                     withheld.append(f)
-                    self.defer_error(f"{f.where or f.module}: rule {f.rule} expected its construct in {f.qualname}, which now delegates to {helpers[:4]} (not followed by this rule): not decided for this shape [{f.message[:160]}]")
+                    self.defer_error(f"{f.where or f.module}: rule {f.rule} expected its construct in {f.qualname}, which changed shape ({'; '.join(helpers[:3])}): not decided for this shape [{f.message[:160]}]")
                     self.rules[f.rule].violated -= 1
                 else:
                     kept.append(f)
